@@ -654,13 +654,15 @@ impl Explorer {
             Self::viol(&mut out, 10, "static-pristine", format!("static text #{i} was modified"));
         }
 
-        // op-specific monitors
-        if out.is_empty() {
+        // op-specific monitors (not blocked by findings that this run only counts as cross-property
+        // events: a persistent one, e.g. a leaked block, would otherwise switch them off for good)
+        let blocking = |out: &Vec<Viol>, d: &Vec<usize>| out.iter().any(|v| d.is_empty() || d.contains(&v.prop));
+        if !blocking(&out, &self.decides) {
             self.check_op(pool, &snaps, op, &model_before, &real_out, &log, dcounts, &info, share, failed + refused, &mut out);
         }
 
         // C17 (sampled)
-        if out.is_empty() && self.cmp_every > 0 && self.cov.steps % self.cmp_every == 0 {
+        if !blocking(&out, &self.decides) && self.cmp_every > 0 && self.cov.steps % self.cmp_every == 0 {
             self.check_cmp(pool, &mut out);
         }
 
@@ -1080,7 +1082,8 @@ impl Explorer {
             Some(a) => a,
             None => return,
         };
-        let exclusively_owned = before.kind == Kind::Inline || (before.kind == Kind::Heap && before.rc == Some(1));
+        // ownership is judged from the harness's own knowledge of live handles (not from the crate's count)
+        let exclusively_owned = before.kind == Kind::Inline || (before.kind == Kind::Heap && share == Share::Unique);
 
         // C09: inline edits stay inline without touching the heap
         if before.kind == Kind::Inline
@@ -1153,7 +1156,8 @@ impl Explorer {
                 Self::viol(out, 11, "reserve-post", format!("reserve({n}) ok but capacity {} < len {} + {n}", a.cap, l_before));
                 Self::viol(out, 6, "reserve-post", format!("reserve({n}) reported success without its postcondition: capacity {} < len {} + {n}", a.cap, l_before));
             }
-            if a.kind == Kind::Static || (a.kind == Kind::Heap && a.rc != Some(1)) {
+            let share_after = share_class(&snap_pool(pool), t);
+            if a.kind == Kind::Static || (a.kind == Kind::Heap && (a.rc != Some(1) || share_after != Share::Unique)) {
                 Self::viol(out, 11, "reserve-post", format!("after reserve the handle does not own its storage exclusively ({:?}, rc {:?})", a.kind, a.rc));
             }
             let sig = mix(1100, mix(before.kind as u64, mix(share as u64, mix((*n == 0) as u64, (a.ptr != before.ptr) as u64))));
